@@ -373,6 +373,8 @@ def run(prop, spec, tier, seed, replay, scratch, nproc, t0):
         merged["notes"] += res.get("notes") or []
         digest_full = digest_full or res.get("digest_cap_reached", False)
         dpath = os.path.join(j["dir"], "digests.bin")
+        if os.path.exists(dpath) and len(digests) >= (1 << 23):
+            digest_full = True  # merged set capped: distinct_nontrivial is a lower bound
         if os.path.exists(dpath) and len(digests) < (1 << 23):
             a = array.array("Q")
             with open(dpath, "rb") as f:
